@@ -469,41 +469,263 @@ theorem nativeShape_of_fits (t : IntTy) (s : List Int) (h : ∀ e ∈ s, t.fits 
       _ = s := List.map_id s
   · rfl
 
-/-! ### facts about the generated tables -/
+/-! ### facts about the generated tables
 
-/-- what `save_npz` writes for a GCXS array whose class the dispatch accepts -/
-theorem writeList_gcxs (e : Bool) (s : List Int) (d : List α) (i p : List Int) (ca : Option (List Int)) (f : α)
-    (h : e = true ∨ gcxsExactTest = false) :
-    writeList (Arr.gcxs e s d i p ca f) =
-      [("data", "data"), ("shape", "shape"), ("fill_value", "fill_value"), ("indices", "indices"),
-       ("indptr", "indptr"), ("compressed_axes", "compressed_axes")] := by
-  cases e <;>
-    simp [gcxsExactTest, writeList, Gen.npzCommon, Gen.npzWrite, branchMatches, Arr.clsName, Arr.exact] at h ⊢
+Nothing below looks at the ORDER in which a generated table lists its entries.  What the tables contribute is a
+handful of closed, decidable facts (`WritesExactly …`, checked by `decide` over the whole generated table); from
+those, what `save_npz` writes is known through `lookup` — it agrees with a fixed, hand-ordered member list
+(`canonMembers` / `commonMembers`) on every name `load_npz` can ask for — and `load`, `Decisive` are transported
+along that agreement (`loadFrom_congr`, `decisive_congr`). -/
+
+/-- the attribute a (member, attribute) list assigns to a member (first occurrence, as `lookup`) -/
+def attrOf : List (String × String) → String → Option String
+  | [], _ => none
+  | (k, a) :: rest, q => if k = q then some a else attrOf rest q
+
+/-- the members `collect` gathers, seen through `lookup`: member `q` holds the attribute the list names for it -/
+theorem collect_lookup (x : Arr α) : ∀ {ps : List (String × String)} {m : Members α}, collect x ps = .ok m →
+    ∀ q, lookup m q = (attrOf ps q).bind x.attr
+  | [], m, h, q => by
+    simp only [collect, Except.ok.injEq] at h
+    subst h
+    simp [lookup, attrOf]
+  | (k, a) :: rest, m, h, q => by
+    unfold collect at h
+    split at h
+    · exact absurd h (by simp)
+    · rename_i p hp
+      split at h
+      · rename_i m' hm'
+        simp only [Except.ok.injEq] at h
+        subst h
+        have ih := collect_lookup x hm' q
+        unfold lookup attrOf
+        by_cases hkq : k = q
+        · simp [hkq, hp]
+        · simp [hkq, ih]
+      · exact absurd h (by simp)
+
+/-- `collect` succeeds when every attribute the list reads exists -/
+theorem collect_ok (x : Arr α) : ∀ {ps : List (String × String)}, (∀ p ∈ ps, (x.attr p.2).isSome = true) →
+    ∃ m, collect x ps = .ok m
+  | [], _ => ⟨[], rfl⟩
+  | (k, a) :: rest, h => by
+    obtain ⟨m', hm'⟩ := collect_ok x (ps := rest) (fun p hp => h p (by simp [hp]))
+    have ha := h (k, a) (by simp)
+    cases hp : x.attr a with
+    | none => simp [hp] at ha
+    | some p => exact ⟨(k, p) :: m', by simp [collect, hp, hm']⟩
+
+/-- the write list of `save_npz` depends on the matrix through its class and exactness only -/
+def writeListOf (cls : String) (exact : Bool) : List (String × String) :=
+  Gen.npzCommon ++ (match Gen.npzWrite.find? (fun b => b.1 == cls && (exact || !b.2.1)) with
+    | some b => b.2.2
+    | none => [])
+
+theorem writeList_eq (x : Arr α) : writeList x = writeListOf x.clsName x.exact := rfl
+
+/-- the seven member names of the format -/
+def allKeys : List String := ["coords", "data", "shape", "fill_value", "indices", "indptr", "compressed_axes"]
+def commonKeys : List String := ["data", "shape", "fill_value"]
+def cooKeys : List String := ["coords", "data", "shape", "fill_value"]
+def gcxsKeys : List String := ["data", "shape", "fill_value", "indices", "indptr", "compressed_axes"]
+
+/-- among the seven names the write list `ps` writes exactly `present`, each from the attribute of its own name, and
+every attribute it reads (for whatever member) is one of `attrs` -/
+def WritesExactly (ps : List (String × String)) (present attrs : List String) : Bool :=
+  allKeys.all (fun k => attrOf ps k == (if present.contains k then some k else none)) && ps.all (fun p => attrs.contains p.2)
+
+/-- every name `load_npz` asks for is one of the seven -/
+theorem vocabulary_sub : ∀ k ∈ vocabulary, k ∈ allKeys := by decide
+
+/-- T1 facts, over the whole generated `npzCommon` / `npzWrite`: what is written for a COO, for an exact GCXS, for an
+instance of a GCXS subclass when the dispatch accepts it, and when it does not -/
+theorem table_coo : WritesExactly (writeListOf "COO" true) cooKeys cooKeys = true := by decide
+theorem table_gcxs : WritesExactly (writeListOf "GCXS" true) gcxsKeys gcxsKeys = true := by decide
+theorem table_gcxs_sub : gcxsExactTest = false → WritesExactly (writeListOf "GCXS" false) gcxsKeys gcxsKeys = true := by decide
+theorem table_gcxs_sub_unrecognised : gcxsExactTest = true → WritesExactly (writeListOf "GCXS" false) commonKeys gcxsKeys = true := by
+  decide
+
+theorem writesExactly_lookup {ps : List (String × String)} {present attrs : List String}
+    (h : WritesExactly ps present attrs = true) :
+    (∀ k ∈ allKeys, attrOf ps k = if present.contains k then some k else none) ∧ (∀ p ∈ ps, p.2 ∈ attrs) := by
+  unfold WritesExactly at h
+  rw [Bool.and_eq_true, List.all_eq_true, List.all_eq_true] at h
+  refine ⟨fun k hk => ?_, fun p hp => ?_⟩
+  · simpa using h.1 k hk
+  · simpa using h.2 p hp
+
+/-- the file of a COO / of a GCXS array whose class the dispatch accepts, with the members in a fixed order -/
+def canonMembers : Arr α → Members α
+  | .coo s c d f => [("coords", .mat c), ("data", .vals d), ("shape", .ints s), ("fill_value", .val f)]
+  | .gcxs _ s d i p ca f =>
+    [("data", .vals d), ("shape", .ints s), ("fill_value", .val f), ("indices", .ints i), ("indptr", .ints p),
+     ("compressed_axes", encAxes ca)]
+
+/-- the file of an array no branch of the dispatch accepts: the common members only -/
+def commonMembers : Arr α → Members α
+  | .coo s _ d f => [("data", .vals d), ("shape", .ints s), ("fill_value", .val f)]
+  | .gcxs _ s d _ _ _ f => [("data", .vals d), ("shape", .ints s), ("fill_value", .val f)]
+
+theorem coo_attr_isSome (s : List Int) (c : Mat) (d : List α) (f : α) :
+    ∀ a ∈ cooKeys, ((Arr.coo s c d f).attr a).isSome = true := by
+  intro a ha
+  simp only [cooKeys, List.mem_cons, List.not_mem_nil, or_false] at ha
+  rcases ha with rfl | rfl | rfl | rfl <;> simp [Arr.attr]
+
+theorem gcxs_attr_isSome (e : Bool) (s : List Int) (d : List α) (i p : List Int) (ca : Option (List Int)) (f : α) :
+    ∀ a ∈ gcxsKeys, ((Arr.gcxs e s d i p ca f).attr a).isSome = true := by
+  intro a ha
+  simp only [gcxsKeys, List.mem_cons, List.not_mem_nil, or_false] at ha
+  rcases ha with rfl | rfl | rfl | rfl | rfl | rfl <;> simp [Arr.attr]
+
+/-- `save_npz` never fails on a COO / GCXS array -/
+theorem save_ok (x : Arr α) : ∃ m, save x = .ok m := by
+  unfold save
+  rw [writeList_eq]
+  apply collect_ok
+  cases x with
+  | coo s c d f =>
+    exact fun p hp => coo_attr_isSome s c d f p.2 ((writesExactly_lookup table_coo).2 p hp)
+  | gcxs e s d i p ca f =>
+    cases e with
+    | true => exact fun q hq => gcxs_attr_isSome true s d i p ca f q.2 ((writesExactly_lookup table_gcxs).2 q hq)
+    | false =>
+      cases hg : gcxsExactTest with
+      | false => exact fun q hq => gcxs_attr_isSome false s d i p ca f q.2 ((writesExactly_lookup (table_gcxs_sub hg)).2 q hq)
+      | true =>
+        exact fun q hq => gcxs_attr_isSome false s d i p ca f q.2 ((writesExactly_lookup (table_gcxs_sub_unrecognised hg)).2 q hq)
+
+/-- what `save_npz` writes for a COO array, through `lookup` -/
+theorem save_coo_lookup (s : List Int) (c : Mat) (d : List α) (f : α) {m : Members α}
+    (hs : save (Arr.coo s c d f) = .ok m) : ∀ k ∈ allKeys, lookup m k = lookup (canonMembers (Arr.coo s c d f)) k := by
+  intro k hk
+  rw [collect_lookup _ hs k, writeList_eq]
+  simp only [Arr.clsName, Arr.exact]
+  rw [(writesExactly_lookup table_coo).1 k hk]
+  simp only [allKeys, List.mem_cons, List.not_mem_nil, or_false] at hk
+  rcases hk with rfl | rfl | rfl | rfl | rfl | rfl | rfl <;> simp [cooKeys, Arr.attr, canonMembers, lookup]
+
+/-- what `save_npz` writes for a GCXS array whose class the dispatch accepts, through `lookup` -/
+theorem save_gcxs_lookup (e : Bool) (s : List Int) (d : List α) (i p : List Int) (ca : Option (List Int)) (f : α)
+    (h : e = true ∨ gcxsExactTest = false) {m : Members α} (hs : save (Arr.gcxs e s d i p ca f) = .ok m) :
+    ∀ k ∈ allKeys, lookup m k = lookup (canonMembers (Arr.gcxs e s d i p ca f)) k := by
+  have ht : WritesExactly (writeListOf "GCXS" e) gcxsKeys gcxsKeys = true := by
+    cases e with
+    | true => exact table_gcxs
+    | false => exact table_gcxs_sub (h.resolve_left (by simp))
+  intro k hk
+  rw [collect_lookup _ hs k, writeList_eq]
+  simp only [Arr.clsName, Arr.exact]
+  rw [(writesExactly_lookup ht).1 k hk]
+  simp only [allKeys, List.mem_cons, List.not_mem_nil, or_false] at hk
+  rcases hk with rfl | rfl | rfl | rfl | rfl | rfl | rfl <;> simp [gcxsKeys, Arr.attr, canonMembers, lookup]
+
+/-- … and for an instance of a GCXS subclass the dispatch does not accept: the common members only -/
+theorem save_gcxs_unrecognised_lookup (s : List Int) (d : List α) (i p : List Int) (ca : Option (List Int)) (f : α)
+    (h : gcxsExactTest = true) {m : Members α} (hs : save (Arr.gcxs false s d i p ca f) = .ok m) :
+    ∀ k ∈ allKeys, lookup m k = lookup (commonMembers (Arr.gcxs false s d i p ca f)) k := by
+  intro k hk
+  rw [collect_lookup _ hs k, writeList_eq]
+  simp only [Arr.clsName, Arr.exact]
+  rw [(writesExactly_lookup (table_gcxs_sub_unrecognised h)).1 k hk]
+  simp only [allKeys, List.mem_cons, List.not_mem_nil, or_false] at hk
+  rcases hk with rfl | rfl | rfl | rfl | rfl | rfl | rfl <;> simp [commonKeys, Arr.attr, commonMembers, lookup]
+
+/-! ### `load` and `Decisive` see a member map through the names of the blocks only -/
+
+theorem fetchAll_congr {m m' : Members α} : ∀ (req : List String), (∀ k ∈ req, lookup m k = lookup m' k) →
+    fetchAll m req = fetchAll m' req
+  | [], _ => rfl
+  | k :: ks, hk => by
+    unfold fetchAll
+    rw [hk k (by simp), fetchAll_congr ks (fun k' hk' => hk k' (by simp [hk']))]
+
+theorem loadFrom_congr (axesOk : List Int → Bool) {m m' : Members α} : ∀ (brs : List (String × List String)),
+    (∀ k ∈ brs.flatMap (·.2), lookup m k = lookup m' k) → loadFrom axesOk m brs = loadFrom axesOk m' brs
+  | [], _ => rfl
+  | (cls, req) :: rest, hk => by
+    unfold loadFrom
+    rw [fetchAll_congr req (fun k hk' => hk k (by simp [List.flatMap_cons, hk'])),
+      loadFrom_congr axesOk rest (fun k hk' => hk k (by simp only [List.flatMap_cons, List.mem_append]; exact Or.inr hk'))]
+
+theorem decisive_congr {m m' : Members α} : ∀ (brs : List (String × List String)),
+    (∀ k ∈ brs.flatMap (·.2), lookup m k = lookup m' k) → Decisive m' brs → Decisive m brs
+  | [], _, _ => trivial
+  | (cls, req) :: rest, hk, hd => by
+    have hreq : ∀ k ∈ req, lookup m k = lookup m' k := fun k hk' => hk k (by simp [List.flatMap_cons, hk'])
+    have hrest : ∀ k ∈ rest.flatMap (·.2), lookup m k = lookup m' k :=
+      fun k hk' => hk k (by simp only [List.flatMap_cons, List.mem_append]; exact Or.inr hk')
+    refine ⟨fun ⟨b, hb, hall⟩ => ?_, decisive_congr rest hrest hd.2⟩
+    rw [fetchAll_congr req hreq]
+    refine hd.1 ⟨b, hb, fun k hkb => ?_⟩
+    rw [← hrest k (List.mem_flatMap.mpr ⟨b, hb, hkb⟩)]
+    exact hall k hkb
+
+/-- `load_npz` on what `save_npz` wrote is `load_npz` on the members in their fixed order -/
+theorem load_of_agree (axesOk : List Int → Bool) {m m' : Members α} (h : ∀ k ∈ allKeys, lookup m k = lookup m' k) :
+    load axesOk m = load axesOk m' :=
+  loadFrom_congr axesOk _ (fun k hk => h k (vocabulary_sub k hk))
+
+/-- `Decisive`, computed: it looks at a member map only through which names are present and where `fetchAll` stops -/
+def isKeyErr {β : Type} : Except BrErr β → Bool
+  | .error .key => true
+  | _ => false
+
+theorem isKeyErr_eq {β : Type} {r : Except BrErr β} (h : isKeyErr r = true) : r = .error .key := by
+  unfold isKeyErr at h
+  split at h
+  · rfl
+  · exact absurd h (by simp)
+
+def decisiveB (m : Members α) : List (String × List String) → Bool
+  | [] => true
+  | (_, req) :: rest =>
+    (!(rest.any (fun b => b.2.all (fun k => (lookup m k).isSome))) || isKeyErr (fetchAll m req)) && decisiveB m rest
+
+theorem decisiveB_sound {m : Members α} : ∀ {brs : List (String × List String)}, decisiveB m brs = true → Decisive m brs
+  | [], _ => trivial
+  | (_, req) :: rest, h => by
+    unfold decisiveB at h
+    rw [Bool.and_eq_true, Bool.or_eq_true] at h
+    refine ⟨fun ⟨b, hb, hall⟩ => ?_, decisiveB_sound h.2⟩
+    rcases h.1 with h1 | h1
+    · exfalso
+      have : rest.any (fun b => b.2.all (fun k => (lookup m k).isSome)) = true := by
+        rw [List.any_eq_true]
+        refine ⟨b, hb, ?_⟩
+        rw [List.all_eq_true]
+        intro k hk
+        cases hl : lookup m k with
+        | none => exact absurd hl (hall k hk)
+        | some _ => rfl
+      simp [this] at h1
+    · exact isKeyErr_eq h1
+
+/-- the three kinds of file `save_npz` writes are decisive, whatever the payloads (decided over the generated `npzRequire`;
+`encAxes` is the only payload whose kind — integer array or object array — depends on the array and on a generated flag) -/
+theorem decisive_canon_coo (s : List Int) (c : Mat) (d : List α) (f : α) :
+    decisiveB (canonMembers (Arr.coo s c d f)) Gen.npzRequire = true := rfl
+theorem decisive_canon_gcxs (e : Bool) (s : List Int) (d : List α) (i p : List Int) (ca : Option (List Int)) (f : α) :
+    decisiveB (canonMembers (Arr.gcxs e s d i p ca f)) Gen.npzRequire = true := by
+  cases ca <;> rfl
+theorem decisive_common (x : Arr α) : decisiveB (commonMembers x) Gen.npzRequire = true := by
+  cases x <;> rfl
 
 /-- everything `save_npz` writes is decisive: the `try` blocks of `load_npz` cannot confuse the formats -/
 theorem save_decisive (x : Arr α) (m : Members α) (hs : save x = .ok m) : Decisive m Gen.npzRequire := by
   cases x with
   | coo s c d f =>
-    simp [save, writeList, Gen.npzCommon, Gen.npzWrite, branchMatches, Arr.clsName, Arr.exact, collect, Arr.attr] at hs
-    subst hs
-    simp [Decisive, Gen.npzRequire, lookup]
+    exact decisive_congr _ (fun k hk => save_coo_lookup s c d f hs k (vocabulary_sub k hk))
+      (decisiveB_sound (decisive_canon_coo s c d f))
   | gcxs e s d i p ca f =>
     by_cases hcls : e = true ∨ gcxsExactTest = false
-    · have hw := writeList_gcxs e s d i p ca f hcls
-      simp [save, hw, collect, Arr.attr] at hs
-      subst hs
-      simp only [Decisive, Gen.npzRequire]
-      refine ⟨fun _ => ?_, fun h => ?_, trivial⟩
-      · simp [fetchAll, lookup]
-      · simp at h
+    · exact decisive_congr _ (fun k hk => save_gcxs_lookup e s d i p ca f hcls hs k (vocabulary_sub k hk))
+        (decisiveB_sound (decisive_canon_gcxs e s d i p ca f))
     · have he : e = false := by cases e; rfl; exact absurd (Or.inl rfl) hcls
       have hg : gcxsExactTest = true := by cases hg : gcxsExactTest; exact absurd (Or.inr hg) hcls; rfl
       subst he
-      have hw : writeList (Arr.gcxs false s d i p ca f) = [("data", "data"), ("shape", "shape"), ("fill_value", "fill_value")] := by
-        revert hg
-        simp [gcxsExactTest, writeList, Gen.npzCommon, Gen.npzWrite, branchMatches, Arr.clsName, Arr.exact]
-      simp [save, hw, collect, Arr.attr] at hs
-      subst hs
-      simp [Decisive, Gen.npzRequire, lookup, fetchAll]
+      exact decisive_congr _ (fun k hk => save_gcxs_unrecognised_lookup s d i p ca f hg hs k (vocabulary_sub k hk))
+        (decisiveB_sound (decisive_common _))
 
 end SparseV.Npz
